@@ -16,6 +16,7 @@ import (
 	"git.sr.ht/~rockorager/vaxis"
 	"git.sr.ht/~rockorager/vaxis/verifshim/vsched"
 	"git.sr.ht/~rockorager/vaxis/verifshim/vfail"
+	vpty "git.sr.ht/~rockorager/vaxis/verifshim/vpty"
 	vsignal "git.sr.ht/~rockorager/vaxis/verifshim/vsignal"
 	vtime "git.sr.ht/~rockorager/vaxis/verifshim/vtime"
 	"verif.local/mc/explore"
@@ -220,6 +221,7 @@ func IndexOf(l []string, s string) int {
 func execute(sc *Scenario, prefix []int) (*vsched.Result, *World) {
 	vsignal.ResetAll()
 	vfail.Hook = nil
+	vpty.Reset()
 	caps := sc.Caps
 	if caps == 0 {
 		caps = refterm.CapRGB | refterm.CapSync | refterm.CapKittyKB
@@ -244,8 +246,8 @@ func execute(sc *Scenario, prefix []int) (*vsched.Result, *World) {
 		}
 		s.TimerGate = func(tm *vtime.Timer) bool {
 			if tm.D == 10*time.Millisecond && tm.IsFunc() {
-				// the Escape timer can fire only while the parser waits for input
-				return w.Con.Idle()
+				// the Escape timer can fire only while the parsers wait for input
+				return w.Con.Idle() && !vpty.Busy()
 			}
 			return true
 		}
@@ -347,6 +349,29 @@ func exploreScenario(sc *Scenario, bound int, budget int64, shard, nshards int) 
 	outcomes := map[string]bool{}
 	n, capped := vsched.Explore(bound, budget, shard, nshards, func(prefix []int) *vsched.Result {
 		res, w := execute(sc, prefix)
+		if os.Getenv("VERIF_DOUBLE") != "" {
+			// determinism self-test: the same schedule twice must give the same observations
+			vsched.Describe = true
+			res1, w1 := execute(sc, prefix)
+			res2, w2 := execute(sc, prefix)
+			vsched.Describe = false
+			a, _ := check(sc, res1, w1)
+			b, _ := check(sc, res2, w2)
+			if a != b || strings.Join(w1.Got, ",") != strings.Join(w2.Got, ",") || len(res1.Trace) != len(res2.Trace) {
+				var t1, t2 []string
+				for _, p := range res1.Trace {
+					if !p.Fixed {
+						t1 = append(t1, p.Desc)
+					}
+				}
+				for _, p := range res2.Trace {
+					if !p.Fixed {
+						t2 = append(t2, p.Desc)
+					}
+				}
+				r.Fault("scenario %s is not deterministic under schedule %v:\n run 1: %q %v\n  %s\n run 2: %q %v\n  %s", sc.Name, prefix, a, w1.Got, strings.Join(t1, " / "), b, w2.Got, strings.Join(t2, " / "))
+			}
+		}
 		lastWorld = w
 		return res
 	}, func(prefix []int, res *vsched.Result) {
@@ -378,7 +403,20 @@ func exploreScenario(sc *Scenario, bound int, budget int64, shard, nshards int) 
 			res2, w2 := execute(sc, sched)
 			vsched.Describe = false
 			if sig2, _ := check(sc, res2, w2); sig2 != sig {
-				r.Fault("replaying a violating schedule gave %q instead of %q (Scenario %s)", sig2, sig, sc.Name)
+				var t2 []string
+				for _, p := range res2.Trace {
+					if !p.Fixed {
+						t2 = append(t2, p.Desc)
+					}
+				}
+				var t1 []string
+				for _, p := range res.Trace {
+					if !p.Fixed {
+						t1 = append(t1, p.Desc)
+					}
+				}
+				r.Fault("replaying a violating schedule gave %q instead of %q (scenario %s)\n first run:  %d points, events %v, %s\n  %s\n second run: %d points, events %v\n  %s", sig2, sig, sc.Name,
+					len(res.Trace), w.Got, what, strings.Join(t1, " / "), len(res2.Trace), w2.Got, strings.Join(t2, " / "))
 			}
 			var tr []string
 			open := false
@@ -406,6 +444,9 @@ func exploreScenario(sc *Scenario, bound int, budget int64, shard, nshards int) 
 // canonical orders, evidence. what describes the scenarios for the evidence rule.
 func Main(id string, scenarios []Scenario, what string) {
 	ID = id
+	if os.Getenv("VERIF_DESCRIBE") != "" {
+		vsched.AlwaysDescribe = true
+	}
 	if os.Getenv("VERIF_BENCH") != "" {
 		f, _ := os.Create(os.Getenv("VERIF_BENCH"))
 		pprof.StartCPUProfile(f)
